@@ -298,7 +298,7 @@ PROPS['C14'] = dict(lean=['Mkdb.Props.C14'], facts=STORE_FACTS, runs=[dict(cmd='
 
 PROPS['C03'] = dict(lean=['Mkdb.Props.C03'], facts=STORE_FACTS, runs=[dict(cmd='db', proto='db', args=['c03']), dict(cmd='wal', proto='wal')],
     sig_filter=r'(db:(image-.*|panic:.*|hang:.*)|wal:.*)',
-    claim='Proof (partial): C03_cut_is_prefix - for every list of records and EVERY byte position at which the log file is cut, wal.read (byte-level model) returns exactly the records whose frames lie completely inside the cut: a maximal prefix, never half a record, never an error, flagged torn exactly when the cut is inside a frame; C03_append_after_cut - after the reader truncated the torn tail, later appends are read back right behind the surviving prefix; C03_roundtrip. C03_insert_crash_leaves_row_prefix / C03_delete_crash_leaves_row_prefix / C03_update_crash_leaves_row_prefix: after any history of acknowledged statements, a crash that cuts the append of a multi-row INSERT, a DELETE or an UPDATE after ANY number k of its records is recovered (replay of the surviving log by the concrete recovery model) to a store that abstracts to a plain database in which the table of the statement holds one of the row-prefix states of Spec.rowPrefixStates - the list the judge of the crash-image runs uses - every other table is untouched and the row-id counter has advanced by exactly the rows applied; a root-moving insert logs two records and the cut between them is covered (the INSERT record alone re-points the catalog); C03_log_cut_is_statement_prefix at the storage level for any mix of row operations. Scenario of these theorems: nothing of the history was flushed since the start state (flushes between earlier statements: C02/C04). Not covered by a theorem: the composition of the byte-level and the record-level halves through wal.read of the concrete bytes of these very records (the encoder of the engine records is compared with the model by the wal run). Tie: crash images of data/ taken by a hook immediately before every length write, body write and fsync of the log during multi-row INSERT/UPDATE/DELETE statements (log cut at the last write and at the last fsync), real InitStorage in a child process on each image, SELECT * of every table, then probe statements; the judge requires recovery to succeed, every table to equal one of the row-prefix states of the spec, and the probes to behave as on an uncrashed database in that state; the wal run compares encoder, reader and file truncation byte for byte with the model.',
+    claim='Proof (partial): C03_cut_is_prefix - for every list of records and EVERY byte position at which the log file is cut, wal.read (byte-level model) returns exactly the records whose frames lie completely inside the cut: a maximal prefix, never half a record, never an error, flagged torn exactly when the cut is inside a frame; C03_append_after_cut - after the reader truncated the torn tail, later appends are read back right behind the surviving prefix; C03_roundtrip. C03_insert_crash_leaves_row_prefix / C03_delete_crash_leaves_row_prefix / C03_update_crash_leaves_row_prefix: after any history of acknowledged statements, a crash that cuts the append of a multi-row INSERT, a DELETE or an UPDATE after ANY number k of its records is recovered (replay of the surviving log by the concrete recovery model) to a store that abstracts to a plain database in which the table of the statement holds one of the row-prefix states of Spec.rowPrefixStates - the list the judge of the crash-image runs uses - every other table is untouched and the row-id counter has advanced by exactly the rows applied; a root-moving insert logs two records and the cut between them is covered (the INSERT record alone re-points the catalog); C03_log_cut_is_statement_prefix at the storage level for any mix of row operations. Scenario of these theorems: nothing of the history was flushed since the start state (flushes between earlier statements: C02/C04). Not covered by a theorem: the composition of the byte-level and the record-level halves through wal.read of the concrete bytes of these very records (the encoder of the engine records is compared with the model by the wal run). Tie: crash images of data/ taken by a hook immediately before every length write, body write and fsync of the log during multi-row INSERT/UPDATE/DELETE statements (log cut at the last write and at the last fsync), and, per statement, 3 (thorough 8) images whose log is cut at an ARBITRARY byte position inside what the statement appended - one of them one byte short of the end - for which the model predicts the surviving records with the byte-level reader model of C03_cut_is_prefix applied to the encoding the model gives its own records (so the byte-level and the record-level halves are composed on concrete bytes on every run); real InitStorage in a child process on each image, SELECT * of every table, then probe statements; the judge requires recovery to succeed, every table to equal one of the row-prefix states of the spec, and the probes to behave as on an uncrashed database in that state; the wal run compares encoder, reader and file truncation byte for byte with the model.',
     note='Trusted: Lean kernel (axioms propext, Classical.choice, Quot.sound only), the hand-written models, the harness and hooks, the OS file system behaving as a byte array per file with fsync making earlier writes durable. Theorems are about the models; the code is covered through the correspondence and the judge, which are bounded.',
     rule='6 (thorough 48) histories, each with crash images at every log write/sync of 2-4 multi-row statements (typically 20-60 images per history) and 3 probe statements per image; wal: as C02. Non-trivial: an image whose log ends inside the statement; distinct by image operation text.',
     assumptions=['a write(2) on the log may be torn at any byte; fsync makes earlier writes durable', 'the data file is not written while the statement runs (C13)'],
